@@ -134,7 +134,7 @@ def generate_internal_leaves(env, version, max_loop=2):
             return v
 
         def st_choice(I, k, a):
-            I.run.event("call", "weighted_choice", a[1])
+            I.run.event("call", "weighted_choice", a[1], getattr(a[1], "empty", None))
             if isinstance(a[1], ValidOps):
                 return Chosen(a[1])
             return Opaque("chosen_from_other")
@@ -174,4 +174,52 @@ def generate_internal_leaves(env, version, max_loop=2):
         g.I = I
         g.version = version
         out.append(g)
+    return out
+
+
+# ----------------------------------------------------------------------------------------
+def valid_opcodes_leaves(env, version):
+    """get_valid_opcodes with can_emit stubbed by a fork: result must be exactly the table row filtered by can_emit"""
+    prog, ctx = env.prog, env.ctx
+    key = prog.find("::get_valid_opcodes")
+    k_can = prog.find("::can_emit")
+    mf = H.models_factory(prog, ctx, None)
+    out = []
+
+    def one(run):
+        asked = []
+
+        def st_can(I, k, a):
+            v = a[1]
+            c = bool(I.run.choose(2, "can_emit(%s)" % v.vname))
+            asked.append((v.vname, c))
+            return c
+        I = Interp(prog, run, mf(), stubs={k_can: st_can})
+        h = ctx.make_generator(depth_bound=2, version=version)
+        r = I.call(key, [h.ref()])
+        return (asked, r)
+    n = 0
+    for run, res, pe in explore(one, max_runs=400):
+        n += 1
+        out.append((res, pe))
+        if n >= 300:
+            break
+    return out
+
+
+def weighted_choice_leaves(env, names):
+    prog, ctx = env.prog, env.ctx
+    key = prog.find("::weighted_choice")
+    mf = H.models_factory(prog, ctx, None)
+    out = []
+
+    def one(run):
+        I = Interp(prog, run, mf())
+        h = ctx.make_generator(depth_bound=2)
+        vec = M.VecObj([ctx.opcode_value(n) for n in names], "opcodes::OpcodeKind")
+        src = G.AbsSource(prog)
+        r = I.call(key, [h.ref(), vec, Ref(Box_(src, "source"), ())])
+        return (I, r)
+    for run, res, pe in explore(one, max_runs=400):
+        out.append((res, pe, list(run.panics)))
     return out
